@@ -159,12 +159,9 @@ func checkC12(c *Ctx) {
 			if !loads || f == PA {
 				continue
 			}
-			for _, e := range p.callersOf(f) {
-				cn := fnName(e.Caller.Func)
-				if cn != "(*inputrc.Parser).next" && cn != "(*inputrc.Parser).Parse" {
-					okOnly = false
-					bad = fnName(f) + " ← " + cn
-				}
+			if ok, b := p.onlyReachedThrough(f, map[string]bool{"(*inputrc.Parser).next": true, "(*inputrc.Parser).Parse": true}); !ok {
+				okOnly = false
+				bad = b
 			}
 		}
 		r.Check(okOnly, "C12.bounds", "inputrc:conds-users-only-via-next", "-", "condition stack users are reached only from next", "a function reading the condition stack has a caller other than next ("+bad+"): it can run before the invariant is established")
